@@ -85,6 +85,8 @@ fn gen_generate_valid_inner_value(maybe_spec: &Option<Specification>) -> TokenSt
 #[derive(Kinded)]
 enum RelevantSanitizer {
     Trim,
+    Lowercase,
+    Uppercase,
 }
 
 /// Subset of StringValidator, which is is possible to handle and is relevant for generating
@@ -98,6 +100,10 @@ enum RelevantValidator {
 /// Final specification to generate an arbitrary valid string
 struct Specification {
     has_trim: bool,
+    /// Statement that maps a freshly generated `ch` to a char which the case sanitizer (if any)
+    /// leaves as it is. Otherwise `lowercase` / `uppercase` could make the string longer
+    /// (e.g. 'ß' -> "SS") and violate `len_char_max`.
+    map_char: TokenStream,
     min_len: ValueOrExpr<usize>,
     max_len: ValueOrExpr<usize>,
 }
@@ -121,6 +127,19 @@ fn build_specification(guard: &StringGuard) -> Result<Option<Specification>, syn
                 .any(|s| matches!(s, RelevantSanitizer::Trim));
             // NOTE: There may be more than one lower bound (`not_empty` counts as
             // `len_char_min = 1`), so the largest one has to be respected.
+            let map_char = if relevant_sanitizers
+                .iter()
+                .any(|s| matches!(s, RelevantSanitizer::Lowercase))
+            {
+                quote!(let ch: char = ch.to_lowercase().next().unwrap_or(ch);)
+            } else if relevant_sanitizers
+                .iter()
+                .any(|s| matches!(s, RelevantSanitizer::Uppercase))
+            {
+                quote!(let ch: char = ch.to_uppercase().next().unwrap_or(ch);)
+            } else {
+                quote!()
+            };
             let min_len = relevant_validators
                 .iter()
                 .filter_map(|v| {
@@ -148,6 +167,7 @@ fn build_specification(guard: &StringGuard) -> Result<Option<Specification>, syn
 
             let spec = Specification {
                 has_trim,
+                map_char,
                 min_len,
                 max_len,
             };
@@ -193,10 +213,10 @@ fn filter_sanitizers(sanitizers: &[StringSanitizer]) -> Result<Vec<RelevantSanit
             // Trim is relevant, because trimming a space can decrease string length and cause
             // violation of len_char_min validation.
             StringSanitizer::Trim => Some(Ok(RelevantSanitizer::Trim)),
-            // lowercase and uppercase sanitizers do not overlap with any of the validation rules,
-            // so we can ignore them
-            StringSanitizer::Lowercase => None,
-            StringSanitizer::Uppercase => None,
+            // lowercase and uppercase sanitizers can make a string longer and cause violation of
+            // len_char_max validation.
+            StringSanitizer::Lowercase => Some(Ok(RelevantSanitizer::Lowercase)),
+            StringSanitizer::Uppercase => Some(Ok(RelevantSanitizer::Uppercase)),
             StringSanitizer::With(_) => {
                 let msg = "It's not possible to derive `Arbitrary` trait for a type with `with` sanitizer.\nYou have to implement `Arbitrary` trait on you own.";
                 Some(Err(syn::Error::new(Span::call_site(), msg)))
@@ -208,6 +228,7 @@ fn filter_sanitizers(sanitizers: &[StringSanitizer]) -> Result<Vec<RelevantSanit
 fn gen_generate_valid_inner_value_with_validators(spec: &Specification) -> TokenStream {
     let Specification {
         has_trim,
+        map_char,
         min_len,
         max_len,
     } = spec;
@@ -220,6 +241,7 @@ fn gen_generate_valid_inner_value_with_validators(spec: &Specification) -> Token
             let mut output = String::with_capacity(target_len * 2);
             for _ in 0..target_len {
                 let ch: char = u.arbitrary()?;
+                #map_char
                 output.push(ch);
             }
             // Make sure that the generated string matches the target_len
@@ -235,8 +257,9 @@ fn gen_generate_valid_inner_value_with_validators(spec: &Specification) -> Token
                         // Try luck one more time: trim the spaces and add another char.
                         // NOTE: This is inefficient, but it's not expected to happen often.
                         output = output.trim().to_string();
-                        let new_char: char = u.arbitrary()?;
-                        output.push(new_char);
+                        let ch: char = u.arbitrary()?;
+                        #map_char
+                        output.push(ch);
                     }
                     core::cmp::Ordering::Greater => {
                         unreachable!(
@@ -256,6 +279,7 @@ fn gen_generate_valid_inner_value_with_validators(spec: &Specification) -> Token
             let mut output = String::with_capacity(target_len * 2);
             for _ in 0..target_len {
                 let ch: char = u.arbitrary()?;
+                #map_char
                 output.push(ch);
             }
             // Return the output string
